@@ -1,6 +1,6 @@
 (* What the global error estimate IS (C13: "reported error = relative, absolute for a zero reference, deviation
    of the reported result from the reference in the chosen norm"), and the resume theorem (C14). *)
-From Coq Require Import ZArith List Bool QArith Qcanon Lia Lra Lqa.
+From Coq Require Import ZArith List Bool QArith Qcanon Lia Lqa.
 From SG Require Import Base.QcUtil Model.Driver Proofs.DriverProofs.
 Import ListNotations.
 Open Scope Qc_scope.
